@@ -23,11 +23,6 @@ Fixpoint pm_set (k : N) (v : V) (m : pmap) : pmap :=
       else (k', v') :: pm_set k v tl
   end.
 
-(** [pm_union m tx]: every binding of [tx] written over [m]
-    (Go: [for k, v := range tx { m[k] = v }]). *)
-Definition pm_union (m tx : pmap) : pmap :=
-  fold_left (fun acc kv => pm_set (fst kv) (snd kv) acc) tx m.
-
 Definition pm_filter (f : N -> V -> bool) (m : pmap) : pmap :=
   filter (fun kv => f (fst kv) (snd kv)) m.
 
@@ -49,6 +44,20 @@ Proof.
            apply N.eqb_eq in Hkk'; subst k'. rewrite N.eqb_refl in He; discriminate.
         -- exact IH.
 Qed.
+
+(** [pm_union m tx]: every binding of [tx] written over [m]
+    (Go: [for k, v := range tx { m[k] = v }]). *)
+Definition pm_union (m tx : pmap) : pmap :=
+  fold_right (fun kv acc => pm_set (fst kv) (snd kv) acc) m tx.
+
+Lemma pm_get_union k m tx :
+  pm_get k (pm_union m tx) = match pm_get k tx with Some v => Some v | None => pm_get k m end.
+Proof.
+  induction tx as [|[k0 v0] tl IH]; cbn [pm_union fold_right pm_get fst snd].
+  - reflexivity.
+  - fold (pm_union m tl). rewrite pm_get_set. destruct (N.eqb k k0); [reflexivity|exact IH].
+Qed.
+
 
 Lemma pm_get_filter_key (f : N -> bool) k m :
   pm_get k (pm_filter (fun k' _ => f k') m) = if f k then pm_get k m else None.
